@@ -121,6 +121,7 @@ UNIT_DRIVERS = {
     "bptree_header": ["bptree_enum_quick"],
     "arena_bound": ["commit::oversize_enum"],
     "startup_protocol": ["wal::crash_enum_quick"],
+    "rotate_protocol": ["wal::crash_enum_quick"],
     "oracle_restore": ["levels::checkpoint_enum_quick"],
     "vlog_file": ["sstable::table::min_vlog_file_id_enum"],
     "lock_order": ["transaction::cursor_enum_quick"],
